@@ -210,7 +210,7 @@ pub fn run(args: &Args) -> Report {
         Some(o) => (o, o + 1, 1),
         None => (0, total, 16),
     };
-    let res = run_isolated(&IsoCfg { prop: "c08".into(), tier: args.tier.clone(), seed: args.seed, start, total: end, workers, cpu_kill_s: 20.0, wall_idle_kill_s: 120.0, extra, exe: None });
+    let res = run_isolated(&IsoCfg { prop: "c08".into(), tier: args.tier.clone(), seed: args.seed, start, total: end, workers, cpu_kill_s: 20.0, wall_idle_kill_s: 120.0, extra, exe: None, skip_after_hangs: None });
     rep.evaluations = res.ran;
     for k in &res.distinct_keys {
         rep.nontrivial(*k);
